@@ -8,7 +8,7 @@
    are the model's codes (E_NOTFOUND = 3, E_INVALID = 6, E_PRICE = 10; emit_purefuns_specs.go).
    [res_of] turns the pair (value, error) into the models' outcome. *)
 From Coq Require Import String.
-From Comdex Require Import Lib.Base Lib.DecArith Lib.GoSem Model.Vault Gen.PureFuns Proofs.PureFunsLemmas.
+From Comdex Require Import Lib.Base Lib.DecArith Lib.GoSem Model.Vault Gen.PureFuns Proofs.PureFunsLemmas Proofs.PureFunsLemmas2.
 
 (* market.CalcAssetPrice, asset found; [active] = the Twa record exists and IsPriceActive *)
 Theorem tie_market_CalcAssetPrice : forall s id amt dec twa (found_twa is_active : bool),
@@ -80,6 +80,29 @@ Proof.
   - cbn [err_of]. rewrite Ee. reflexivity.
 Qed.
 Print Assumptions tie_vault_VerifyCollaterlizationRatio.
+
+(* vault.GetAmountOfOtherToken(id1, rate1, amt1, id2, rate2), both assets found: the token amount (second
+   result) and the nil error are those of Vault.other_token_gen on the two assets' Decimals, for all
+   inputs; [snd3] drops the first result (the dollar value t1dAmount, which the vault model does not use) *)
+Theorem tie_vault_GetAmountOfOtherToken : forall id1 rate1 amt1 id2 rate2 dec1 dec2,
+  snd3 (to_option (gen_vault_GetAmountOfOtherToken id1 rate1 amt1 id2 rate2 true true dec1 dec2))
+  = pair0 (Vault.other_token_gen dec1 rate1 amt1 dec2 rate2).
+Proof.
+  intros. unfold gen_vault_GetAmountOfOtherToken, other_token_gen, snd3, pair0. cbn [negb].
+  unfold_gosem. unfold dmul_c, dquo_c, dtrunc_int_c. cbv [obind to_option option_map]. tie_auto.
+Qed.
+Print Assumptions tie_vault_GetAmountOfOtherToken.
+
+(* an asset that does not exist: (0, 0, ErrorAssetDoesNotExist), no arithmetic *)
+Theorem tie_vault_GetAmountOfOtherToken_notfound : forall id1 rate1 amt1 id2 rate2 (f2 : bool) dec1 dec2,
+  gen_vault_GetAmountOfOtherToken id1 rate1 amt1 id2 rate2 false f2 dec1 dec2 = Ok (0, 0, 3) /\
+  gen_vault_GetAmountOfOtherToken id1 rate1 amt1 id2 rate2 true false dec1 dec2 = Ok (0, 0, 3).
+Proof. split; reflexivity. Qed.
+Print Assumptions tie_vault_GetAmountOfOtherToken_notfound.
+
+Theorem tie_vault_GetAmountOfOtherToken_recognised : gen_vault_GetAmountOfOtherToken_unrecognised = [].
+Proof. reflexivity. Qed.
+Print Assumptions tie_vault_GetAmountOfOtherToken_recognised.
 
 Theorem tie_vault_recognised :
   gen_vault_CalculateCollateralizationRatio_unrecognised = [] /\ gen_market_CalcAssetPrice_unrecognised = [] /\
